@@ -28,7 +28,7 @@ def vdc(rng, tier):
     from artap.doe import _van_der_corput
     bases = PRIMES[:6] if tier == "quick" else PRIMES + [4, 10]
     for b in bases:
-        for n in ([0, 1, 2, 17, 40] if tier == "quick" else [0, 1, 2, 17, 40, 300]):
+        for n in ([0, 1, 2, 17, 40, 260] if tier == "quick" else [0, 1, 2, 17, 40, 300, 3200]):     # 260 > 3^5, 3200 > 5^5
             yield {"call": lambda n_sample, base: _van_der_corput(n_sample, base), "args": {"n_sample": n, "base": b}, "extra": _X,
                    "label": "%d|%d" % (n, b)}
 
@@ -71,7 +71,7 @@ def lhs(rng, tier):
 
 @scenario("artap.operators:HaltonGenerator.generate", bound="N in {1,2,3,5,8,13,40,200}, 4 boxes (1-5 parameters)")
 def halton(rng, tier):
-    return _gen_cases("HaltonGenerator", rng, tier, [1, 2, 3, 5, 8, 13, 40, 200])
+    return _gen_cases("HaltonGenerator", rng, tier, [1, 2, 3, 5, 8, 13, 40, 200, 243, 244, 730])      # exact powers of the bases
 
 
 @scenario("artap.operators:RandomGenerator.generate", bound="N in {0,1,2,5,40}, 4 boxes, seeds")
